@@ -7,6 +7,6 @@ trap 'git -C /repo checkout -- . ' EXIT
 git apply "$patch"
 cd /verif
 for p in "$@"; do
-  ./check "$p" --tier quick 2>&1 | grep -v "conda" | grep -E "VIOLATION|UNDECIDED|CHECKER|KNOWN|^C[0-9]+ \[" 
+  ./check "$p" --tier quick $VERIF_CHECK_ARGS 2>&1 | grep -v "conda" | grep -E "VIOLATION|UNDECIDED|CHECKER|KNOWN|^C[0-9]+ \[" 
   echo "exit=${PIPESTATUS[0]} ($p)"
 done
